@@ -38,6 +38,18 @@ def body(run):
         jobs.append(lambda d=d: run.tlc("UacpFraming", "UacpFraming", "UacpFraming_bug_%s.cfg" % d,
                                         expect="violation", count=False,
                                         label="deviation demo %s must violate an invariant" % d))
+    # second model: several connections of one uacp.Listener (the listener's Acknowledge is one
+    # object every connection reads its receive buffer size through)
+    lres = {}
+    jobs.append(lambda: lres.__setitem__("mc", run.tlc("UacpFraming", "UacpListener", "UacpListener_mc.cfg", timeout=3000,
+                label="listener: per-connection verdicts and Acknowledge values independent of the other connections")))
+    jobs.append(lambda: lres.__setitem__("gen", run.tlc("UacpFraming", "UacpListener",
+                "UacpListener_gen3.cfg" if q else "UacpListener_gen4.cfg", mode="gen", count=False, timeout=3000,
+                label="listener behaviours: Hello sizes x frame size per round, every open connection after each accept")))
+    jobs.append(lambda: run.tlc("UacpFraming", "UacpListener", "UacpListener_dev.cfg", expect="violation", count=False,
+                                label="deviation demo: a handshake that writes through the listener's Acknowledge (InvListenerAck)"))
+    jobs.append(lambda: run.tlc("UacpFraming", "UacpListener", "UacpListener_dev_verdict.cfg", expect="violation", count=False,
+                                label="deviation demo: ... changes verdicts / Acknowledge of other connections"))
     res = run.parallel(*jobs)
     rows = res[1].rows + res[2].rows
     if not q:
@@ -49,6 +61,14 @@ def body(run):
     if len(results) != len(rows):
         raise vf.Inconclusive("harness returned %d results for %d behaviours" % (len(results), len(rows)))
     run.absorb(results)
+    lrows = lres["gen"].rows
+    if len(lrows) < 50:
+        raise vf.Inconclusive("TLC emitted only %d listener behaviours" % len(lrows))
+    lresults = run.go_run(exe[0], ["-listener", "-workers", "8"], cases=lrows, timeout=1800)
+    if len(lresults) != len(lrows):
+        raise vf.Inconclusive("harness returned %d results for %d listener behaviours" % (len(lresults), len(lrows)))
+    run.absorb(lresults)
+    run.cov["behaviours_listener"] = len(lrows)
     run.cov["behaviours_single_frame"] = len(res[1].rows)
     run.cov["behaviours_sampled"] = len(res[2].rows)
     run.cov["rule"] = ("one case per TLC behaviour (frame list, cut set, close flag); class = frame kinds/fill classes x "
@@ -62,6 +82,9 @@ def body(run):
         "unknown message types: delivery and refusal are both accepted (the statement fixes neither)",
         "hang detection: a Receive call that needs more than 6 s although all required bytes arrived (retried once)",
         "loopback TCP, segments separated by waiting for the receiver to drain its socket queue (SIOCINQ)",
+        "listener behaviours: 3 (thorough 4) connections of one uacp.Listener, Hello sizes below / equal / above the "
+        "listener's, one frame per open connection after every accept (sizes: small, between, = listener) and a final "
+        "frame above the listener's size; whole frames in one write",
     ]
 
 
